@@ -491,6 +491,7 @@ func (c *Ctx) hasDeferredUnlock(fn *ssa.Function, mu *ssa.Global) bool {
 // ---------- C08.trim ----------
 
 func (c *Ctx) RuleTrim(fns map[*ssa.Function]bool) {
+	n := 0
 	for _, fn := range SortedFuncs(fns) {
 		for _, b := range fn.Blocks {
 			for _, in := range b.Instrs {
@@ -504,12 +505,24 @@ func (c *Ctx) RuleTrim(fns map[*ssa.Function]bool) {
 				}
 				switch f.String() {
 				case "strings.TrimSuffix", "strings.TrimPrefix", "bytes.TrimSuffix", "bytes.TrimPrefix":
-					if s, ok := constString(call.Call.Args[1]); ok && strings.TrimSpace(s) == "" && s != "" {
-						c.add("violated", "C08.trim", fn, call.Pos(), fmt.Sprintf("%s with all-space cutset %q removes at most one occurrence; whitespace around the whole must be ignored without bound", f.Name(), s))
+					if s, ok := constString(stripConv(call.Call.Args[1])); ok && strings.TrimSpace(s) == "" && s != "" {
+						n++
+						c.addc("violated", "C08.trim", fn, call.Pos(), f.Name(), fmt.Sprintf("%s with all-space cutset %q removes at most one occurrence; whitespace around the whole must be ignored without bound", f.Name(), s), "\"1KiB  \"")
 					}
+				case "strings.TrimRight", "strings.Trim", "bytes.TrimRight", "bytes.Trim":
+					if s, ok := constString(stripConv(call.Call.Args[1])); ok && strings.Contains(s, " ") {
+						n++
+						c.addc("discharged", "C08.trim", fn, call.Pos(), f.Name(), f.Name()+" removes trailing spaces without bound", "")
+					}
+				case "strings.TrimSpace", "bytes.TrimSpace":
+					n++
+					c.addc("discharged", "C08.trim", fn, call.Pos(), f.Name(), f.Name()+" removes surrounding white space without bound", "")
 				}
 			}
 		}
+	}
+	if n == 0 {
+		c.addc("undecided", "C08.trim", nil, token.NoPos, "trailing-space idiom", "no recognised removal of trailing spaces on the text path (idioms: strings.TrimRight/Trim with a cutset containing ' ', TrimSpace)", "")
 	}
 }
 
@@ -541,13 +554,13 @@ func (c *Ctx) RuleSeparatorAware(fns map[*ssa.Function]bool, sep byte) {
 		}
 	}
 	if found {
-		c.add("discharged", "C06.sep", first, token.NoPos, "separator constant referenced")
+		c.addc("discharged", "C06.sep", first, token.NoPos, "separator", "separator constant referenced", "")
 	} else {
 		names := []string{}
 		for _, fn := range SortedFuncs(fns) {
 			names = append(names, FnName(fn))
 		}
-		c.add("violated", "C06.sep", first, token.NoPos, fmt.Sprintf("no constant containing %q in %v: identifiers are never separated", string(sep), names))
+		c.addc("violated", "C06.sep", first, token.NoPos, "separator", fmt.Sprintf("no constant containing %q in %v: identifiers are never separated", string(sep), names), "1.0.0-a.b vs 1.0.0-a-")
 	}
 }
 
